@@ -34,6 +34,16 @@ starts its windows at the restore offset).  The other window constants of
 iter_utils (_MAX_BATCH_SIZE = 4096 of IteratorQueue, buffer_size = 3 *
 num_threads) only exist with worker threads (harness 'threads').
 
+Sliced aggregates (`add_slice`): the per-slice entries MetricKey(metric, slice)
+of the aggregation state are created lazily, by the first batch that has an
+example of the slice, so a checkpoint holds entries that no fresh state has.
+SLICED_SHAPES puts single-feature, cross, fan-out (slice_fn) and slice_mask_fn
+slicers, stacked slicers over several aggregates (one with slicing disabled),
+batch(2) and the stages of a chain under every history above; `to_batch` makes
+slices that are seen only before a cut, only after it, or on both sides.  The
+uninterrupted sliced aggregate is compared with a brute-force group-by
+(`model_sliced_agg`), restored runs with the uninterrupted one (exact key set).
+
 Only `num_threads == 0` is built here.  `NUM_THREADS` / `_Executor` are the
 seam for the threaded configurations: they must be driven by the deterministic
 scheduler (E1), never by OS threads; results are then compared as multisets
@@ -58,6 +68,7 @@ NUM_THREADS = (0,)     # threaded variants: to be added under vmc.sched (E1)
 TRANSPORTS = ('object', 'pickle', 'pickler')
 SOURCE_VIAS = ('iterator', 'fresh-iterator', 'data-source')
 PIPE_VIAS = ('iterator', 'fresh-iterator')
+SLICED_TRANSPORTS = ('object', 'pickler')   # sliced shapes, both tiers
 
 
 def val(i):
@@ -195,6 +206,136 @@ def inc(x):
 
 def dbl(x):
   return x * 2
+
+
+# ---- sliced aggregates (add_slice): the rows become batches of columns ------
+
+def to_batch(r):
+  """Source row(s) -> a batch of two examples per row.
+
+  Row number i = r - 100 gives the examples (a=i//2, b=i%2, v=r) and
+  (a=-1, b=0, v=2r): slice a=-1 is in every batch, a=i//2 only in two
+  consecutive batches (so, for a cut, only before it, only after it or on both
+  sides), every (a, b) cross with a >= 0 in exactly one batch.
+  """
+  a, b, v = [], [], []
+  for x in (r if isinstance(r, list) else [r]):
+    i = x - 100
+    a += [i // 2, -1]
+    b += [i % 2, 0]
+    v += [x, 2 * x]
+  return {'a': a, 'b': b, 'v': v}
+
+
+def batch_total(batch):
+  return sum(batch['v'])
+
+
+def fan(a):
+  """Fan-out slice_fn: an example is in the slices a and a + 1."""
+  return (a, a + 1)
+
+
+def mask_slices(a):
+  """slice_mask_fn (masks given by the slicer): 'neg' and 'even' examples."""
+  for name, mask in (('neg', [x < 0 for x in a]),
+                     ('even', [x >= 0 and x % 2 == 0 for x in a])):
+    if any(mask):
+      yield name, (mask,)
+
+
+# id -> (add_slice arguments, slice name, model: (a, b) -> slice values)
+SLICERS = {
+    'one': (dict(keys='a'), ('a',), lambda a, b: [(a,)]),
+    'cross': (dict(keys=('a', 'b')), ('a', 'b'), lambda a, b: [(a, b)]),
+    'fan': (dict(keys='a', slice_name='fan', slice_fn=fan), ('fan',),
+            lambda a, b: [(a,), (a + 1,)]),
+    'mask': (dict(keys='a', slice_name='m', slice_mask_fn=mask_slices), ('m',),
+             lambda a, b: [('neg',)] if a < 0 else [('even',)] if a % 2 == 0
+             else []),
+}
+
+
+def _add_slices(t, ids):
+  for s in ids:
+    kw = dict(SLICERS[s][0])
+    t = t.add_slice(kw.pop('keys'), **kw)
+  return t
+
+
+class SlicedHistory:
+  """State: the (masked) values of every batch seen, in order (in place)."""
+
+  def create_state(self):
+    return []
+
+  def update_state(self, state, x):
+    state.append(tuple(int(v) for v in x))
+    return state
+
+  def merge_states(self, states):
+    return list(itt.chain.from_iterable(states))
+
+  def get_result(self, state):
+    return list(state)
+
+
+class SlicedSum:
+  """State: a mutable (sum, number of examples) object, updated in place."""
+
+  def create_state(self):
+    return SumCountState()
+
+  def update_state(self, state, x):
+    state.total += sum(int(v) for v in x)
+    state.count += len(x)
+    return state
+
+  def merge_states(self, states):
+    return SumCount().merge_states(states)
+
+  def get_result(self, state):
+    return (state.total, state.count)
+
+
+def _plain_key(k):
+  """A key of agg_result without library types: (metric, slice name, value)."""
+  if hasattr(k, 'slice') and hasattr(k, 'metrics'):
+    return (k.metrics, tuple(k.slice.features), tuple(k.slice.values))
+  return (k, (), ())
+
+
+def _listify(x):
+  """Tuples as lists (agg_result does not keep the difference)."""
+  if isinstance(x, dict):
+    return {k: _listify(v) for k, v in x.items()}
+  if isinstance(x, (list, tuple)):
+    return [_listify(v) for v in x]
+  return x
+
+
+def model_sliced_agg(batches, aggs):
+  """Brute-force group-by.  aggs: ((output key, 'history' | 'sum', slicer ids)).
+
+  -> {(metric, slice name, slice value): result}; a slice exists from the
+  first batch on that has an example in it.
+  """
+  out = {}
+  for key, kind, slicers in aggs:
+    groups = {(key, (), ()): [tuple(b['v']) for b in batches]}
+    for s in slicers:
+      _, name, values_of = SLICERS[s]
+      for b in batches:
+        per = {}
+        for a, bb, v in zip(b['a'], b['b'], b['v']):
+          for value in values_of(a, bb):
+            per.setdefault(value, []).append(v)
+        for value, vs in per.items():
+          groups.setdefault((key, name, value), []).append(tuple(vs))
+    for k, seen in groups.items():
+      out[k] = list(seen) if kind == 'history' else (
+          sum(map(sum, seen)), sum(map(len, seen)))
+  return out
 
 
 def _transport(name, state):
@@ -556,6 +697,75 @@ SHAPES = ('source-only', 'apply', 'apply-agg', 'apply-two-aggs', 'batch-agg',
           'chain-agg-last', 'chain-agg-first', 'chain-agg-both')
 
 
+# Pipelines whose aggregates are sliced (add_slice): the per-slice entries of
+# the aggregation state are created lazily, when a batch first has an example
+# of the slice; a checkpoint has to carry them.
+#   shape -> ((stage, output key, aggregate, slicer ids | None = slicing
+#             disabled), ...)
+SLICED_SHAPES = {
+    'sliced-one': (('', 'h', 'history', ('one',)),),
+    'sliced-cross': (('', 'h', 'history', ('cross',)),),
+    'sliced-fan': (('', 'h', 'history', ('fan',)),),
+    # two sliced aggregates under two stacked slicers + one with slicing off
+    'sliced-stack-aggs': (('', 'h', 'history', ('one', 'mask')),
+                          ('', 's', 'sum', ('one', 'mask')),
+                          ('', 'u', 'sum', None)),
+    'batch-sliced': (('', 's', 'sum', ('one', 'fan')),),
+    'chain-sliced-last': (('b', 'hb', 'history', ('cross',)),),
+    'chain-sliced-first': (('a', 'sa', 'sum', ('fan',)),),
+    'chain-sliced-both': (('a', 'sa', 'sum', ('one',)),
+                          ('b', 'hb', 'history', ('mask', 'cross'))),
+}
+_AGG_FIXTURES = {'history': SlicedHistory, 'sum': SlicedSum}
+
+
+def _sliced_aggs(t, shape, stage):
+  """Adds the aggregates of `stage` and their slicers to transform `t`."""
+  mine = [d for d in SLICED_SHAPES[shape] if d[0] == stage]
+  for i, (_, key, kind, slicers) in enumerate(mine):
+    kw = dict(input_keys='v', output_keys=key, disable_slicing=slicers is None)
+    fn = _AGG_FIXTURES[kind]()
+    t = t.agg(fn, **kw) if i == 0 else t.add_agg(fn=fn, **kw)
+  ids = dict.fromkeys(s for d in mine for s in d[3] or ())
+  return _add_slices(t, ids)
+
+
+def _build_sliced(shape, node, new):
+  if shape == 'batch-sliced':
+    t = _sliced_aggs(new().data_source(node).batch(2).apply(to_batch), shape,
+                     '')
+    return t, lambda rows: [to_batch(list(rows[i:i + 2]))
+                            for i in range(0, len(rows), 2)]
+  if not shape.startswith('chain-'):
+    t = _sliced_aggs(new().data_source(node).apply(to_batch), shape, '')
+    return t, lambda rows: [to_batch(r) for r in rows]
+  if shape == 'chain-sliced-last':
+    a = new('a').data_source(node).apply(inc)
+    b = _sliced_aggs(new('b').apply(to_batch), shape, 'b')
+    return a.chain(b), lambda rows: [to_batch(r + 1) for r in rows]
+  a = _sliced_aggs(new('a').data_source(node).apply(to_batch), shape, 'a')
+  if shape == 'chain-sliced-first':
+    return a.chain(new('b').apply(batch_total)), lambda rows: [
+        batch_total(to_batch(r)) for r in rows]
+  b = _sliced_aggs(new('b').apply(dict), shape, 'b')
+  return a.chain(b), lambda rows: [to_batch(r) for r in rows]
+
+
+def sliced_agg_model(shape, rows):
+  """Expected agg_result of the uninterrupted run (plain keys) or None."""
+  if shape not in SLICED_SHAPES:
+    return None
+  if shape == 'batch-sliced':
+    batches = [to_batch(list(rows[i:i + 2])) for i in range(0, len(rows), 2)]
+  elif shape == 'chain-sliced-last':
+    batches = [to_batch(r + 1) for r in rows]
+  else:
+    batches = [to_batch(r) for r in rows]
+  return model_sliced_agg(batches, [
+      (key, kind, slicers or ()) for _, key, kind, slicers in
+      SLICED_SHAPES[shape]])
+
+
 def build_pipeline(shape, node, num_threads=0):
   """-> (transform, reference fn: source rows -> expected outputs)."""
   from ml_metrics._src.chainables import transform
@@ -577,6 +787,8 @@ def build_pipeline(shape, node, num_threads=0):
   if shape == 'batch-agg':
     t = new().data_source(node).batch(2).agg(SumCount(), output_keys='s')
     return t, lambda rows: [list(rows[i:i + 2]) for i in range(0, len(rows), 2)]
+  if shape in SLICED_SHAPES:
+    return _build_sliced(shape, node, new)
   a = new('a').data_source(node).apply(inc)
   b = new('b').apply(dbl)
   if shape == 'chain-agg-last':
@@ -631,13 +843,34 @@ def _make_iter(t, spec, make_shard):
 
 
 def _agg_class(shape):
+  if shape in SLICED_SHAPES:
+    return 'sliced-' + ('aggregate-in-non-last-stage' if any(
+        d[0] == 'a' for d in SLICED_SHAPES[shape]) else
+                        'aggregate-in-last-stage')
   return {'chain-agg-first': 'aggregate-in-non-last-stage',
           'chain-agg-both': 'aggregate-in-non-last-stage'}.get(
               shape, 'aggregate-in-last-stage')
 
 
+def _is_slice_key(k):
+  return _plain_key(k)[1] != ()
+
+
 def _agg_symptom(got, exp, at_checkpoint):
-  """'stale' if every wrong entry still has its value of the checkpoint."""
+  """'stale' if every wrong entry still has its value of the checkpoint.
+
+  Sliced aggregates: when only per-slice entries are wrong (the unsliced ones
+  are right), says whether slices are missing / invented / have wrong values.
+  """
+  if isinstance(got, dict) and isinstance(exp, dict):
+    wrong = {k for k in set(got) | set(exp)
+             if k not in got or k not in exp or got[k] != exp[k]}
+    if wrong and all(map(_is_slice_key, wrong)):
+      if any(k not in got for k in wrong):
+        return 'per-slice-aggregates-missing-after-restore'
+      if any(k not in exp for k in wrong):
+        return 'per-slice-aggregates-invented-after-restore'
+      return 'per-slice-agg-result-differs'
   if isinstance(got, dict) and isinstance(exp, dict) and isinstance(
       at_checkpoint, dict) and got.keys() == exp.keys():
     wrong = [k for k in exp if got[k] != exp[k]]
@@ -679,7 +912,6 @@ def check_pipeline_history(st, pspec, t, full, hist, num_threads=0):
       delivered += _take(it, c)
       pos = len(delivered)
       cls = _input_class(at_offset, c, False)
-      agg_at_checkpoint = _agg_result(it)
       state = _transport(transport, it.state)
       if old_continues:
         rest, _ = _drain(it)
@@ -687,10 +919,11 @@ def check_pipeline_history(st, pspec, t, full, hist, num_threads=0):
         if sym:
           return (f'C10:{driver}:taking-state-disturbs-the-iterator:{sym}',
                   {'generation': g, 'delivered': delivered, 'rest': rest})
-        if _agg_result(it) != exp_agg:
+        old_agg = _agg_result(it)
+        if old_agg != exp_agg:
           return (f'C10:{driver}:taking-state-disturbs-the-iterator:'
                   'agg-result-differs',
-                  {'generation': g, 'agg_result': _agg_result(it)})
+                  {'generation': g, 'agg_result': old_agg})
       probe = restore(it, state(probe=True))
       tail, _ = _drain(probe)
       sym = _symptom(delivered + tail, exp_out, ex.ordered)
@@ -701,6 +934,11 @@ def check_pipeline_history(st, pspec, t, full, hist, num_threads=0):
                  'delivered_after_restore': tail})
       got_agg = _agg_result(probe)
       if got_agg != exp_agg:
+        # what the aggregate was at the checkpoint: an uninterrupted run up to
+        # the same position (only evaluated to name the symptom)
+        fresh = _make_iter(t, spec, make_shard)
+        _take(fresh, pos)
+        agg_at_checkpoint = _agg_result(fresh)
         what = _agg_symptom(got_agg, exp_agg, agg_at_checkpoint)
         return (f'C10:{driver}:{what}:{_agg_class(shape)}',
                 {'generation': g, 'agg_result': got_agg,
@@ -713,14 +951,15 @@ def check_pipeline_history(st, pspec, t, full, hist, num_threads=0):
     sym = _symptom(delivered, exp_out, ex.ordered)
     if sym:
       return (f'C10:{driver_src}:{sym}:whole-history', {'delivered': delivered})
-    if _agg_result(it) != exp_agg:
+    final_agg = _agg_result(it)
+    if final_agg != exp_agg:
       return (f'C10:{driver}:agg-result-differs:whole-history',
-              {'agg_result': _agg_result(it)})
+              {'agg_result': final_agg})
     if _agg_of(returned) != _agg_of(exp_ret):
       return (f'C10:{driver}:restored-iterator-returns-no-aggregate-with-'
               'StopIteration', {'returned': repr(returned),
                                 'uninterrupted': repr(exp_ret)})
-    observed.append((delivered, _agg_result(it)))
+    observed.append((delivered, final_agg))
     return None
 
   try:
@@ -752,6 +991,14 @@ def _uninterrupted(st, pspec, num_threads):
   if out != exp:
     st.violation('C10:pipeline:uninterrupted-run-differs-from-'
                  'reference', {'pspec': pspec, 'got': out, 'expected': exp})
+  exp_agg = sliced_agg_model(shape, rows)
+  if exp_agg is not None:    # sliced aggregates: a brute-force group-by
+    got_agg = {_plain_key(k): _listify(v) for k, v in agg.items()} if (
+        isinstance(agg, dict)) else agg
+    if got_agg != _listify(exp_agg):
+      st.violation('C10:pipeline:uninterrupted-sliced-aggregate-differs-from-'
+                   'reference', {'pspec': pspec, 'got': repr(got_agg),
+                                 'expected': repr(exp_agg)})
   return t, (out, agg, returned)
 
 
@@ -869,6 +1116,39 @@ def pipeline_specs(max_n, thorough):
   return out
 
 
+def sliced_pipeline_specs(max_n, thorough):
+  """Every sliced shape over every kind of source the pipelines meet.
+
+  quick: unsharded n = 0..max_n and one source of every other kind (shard with
+  offset, nested shard, two sub-sequences, round-robin ShardedIterable shard,
+  make(shard=)); thorough: the source list of the unsliced shapes.
+  """
+  if thorough:
+    plain = [p for p in pipeline_specs(max_n, False) if p[0] == 'apply-agg']
+    out = []
+    for shape in SLICED_SHAPES:
+      out += [(shape, s, ms) for _, s, ms in plain
+              if not (ms and shape.startswith('chain-'))]
+    return out
+  n = max_n
+  srcs = [('seq', (k,), ()) for k in range(n + 1)]
+  srcs += [('seq', (n,), ((1, 2, 1),)), ('seq', (n,), ((0, 2, 0), (1, 2, 0))),
+           ('seq', (1, n - 2), ()), ('iter', n, 'list', (1, 2))]
+  out = []
+  for shape in SLICED_SHAPES:
+    out += [(shape, s, None) for s in srcs]
+    if not shape.startswith('chain-'):
+      out.append((shape, ('seq', (n,), ()), (1, 2)))
+  return out
+
+
+def long_sliced_pipeline_specs(w):
+  """Sliced aggregates over a source longer than the read-ahead window (W / 2
+  slices of feature a come and go)."""
+  return [(shape, ('seq', (w + 1,), ()), None)
+          for shape in ('sliced-one', 'chain-sliced-both')]
+
+
 # --------------------------------------------------------------------------
 # long sources: longer than the read-ahead window of the random-access iterator
 # --------------------------------------------------------------------------
@@ -970,6 +1250,7 @@ def run(ctx):
   only = getattr(ctx, 'only', None) or HARNESSES
   n_src = 5 if quick else 7
   n_pipe = 4 if quick else 6
+  n_sliced = 4
   max_gen = 3
   n_src4, n_pipe4 = (0, 0) if quick else (5, 4)    # 4-generation histories
   transports = TRANSPORTS
@@ -995,6 +1276,23 @@ def run(ctx):
       'sharded(+offset)/nested/two-sub-sequence/ShardedIterable sources and '
       f'make(shard=), same histories with state as {list(pipe_transports)}, '
       f'restored on the iterator/a fresh make().iterate(){four}; '
+      f'SLICED aggregates (add_slice; rows become batches of two examples '
+      '(a=i//2, b=i%2), (a=-1, b=0), so a slice is seen in every batch / only '
+      'in two consecutive batches / in one batch, i.e. for a cut only before '
+      'it, only after it or on both sides): shapes '
+      f'{list(SLICED_SHAPES)} = single-feature / cross / fan-out slice_fn / '
+      'slice_mask_fn slicers, stacked slicers over two sliced aggregates + '
+      'one with slicing disabled, after batch(2), in the last / first / both '
+      f'stages of a chain; n<={n_sliced} over ' + (
+          'unsharded n=0..4 and one shard(1,2,offset 1) / nested shard / '
+          'sub-sequences (1,2) / round-robin half / make(shard=(1,2)) source'
+          if quick else 'every source of the unsliced shapes with n<=4; '
+          f'shapes sliced-one and chain-sliced-both over {w + 1} rows (long '
+          'cut vectors, g<=2)') +
+      f', every cut vector g<=3 x state as {list(SLICED_TRANSPORTS)} x restore '
+      'route x abandoned/drained as above; the uninterrupted sliced aggregate '
+      'is compared with '
+      'a brute-force group-by (exact key set and values); '
       f'LONG sources (read-ahead window W={w} of the random-access iterator, '
       'fall-back windows W/4, W/16, 1): SequenceDataSource of '
       f'{long_lengths(w, not quick)} rows unsharded / halved with offset 0..1 '
@@ -1032,7 +1330,9 @@ def run(ctx):
       'element); _MAX_BATCH_SIZE=4096 and buffer_size=3*num_threads are '
       'windows of the threaded iterators only',
       'offsets larger than the shard are outside the quantifier',
-      'aggregates: full history list, and an in-place (sum, count) object',
+      'aggregates: full history list, and an in-place (sum, count) object; '
+      'sliced aggregates: per-batch history of the masked values, in-place '
+      '(sum, number of examples) object',
   ]
   if 'source' in only:
     specs = source_specs(n_src, not quick)
@@ -1062,8 +1362,18 @@ def run(ctx):
     lunits = [(u, long_gens, pipe_transports, w, False) for u in
               enums.chunks(ctx.shuffled(lpspecs),
                            max(1, len(lpspecs) // (2 if quick else 1)))]
+    # sliced aggregates (add_slice); a sliced history costs about as much as
+    # two unsliced ones
+    spspecs = sliced_pipeline_specs(n_sliced, not quick)
+    ctx.notes['sliced_pipeline_configurations'] = len(spspecs)
+    sunits = [(u, (1, max_gen), SLICED_TRANSPORTS, 0) for u in
+              enums.chunks(ctx.shuffled(spspecs), 4 if quick else 24)]
+    if not quick:
+      lunits += [([ps], (1, 2, (False,)), SLICED_TRANSPORTS, w, False)
+                 for ps in long_sliced_pipeline_specs(w)]
     ctx.pmap(_pipeline_unit, lunits + [
-        u + (i == 0,) for i, u in enumerate(units)])
+        u + (i == 0,) for i, u in enumerate(units)] + [
+            u + (i == 0,) for i, u in enumerate(sunits)])
   if 'threads' in only:
     from vmc import explorer
     tc = threaded_configs(quick)
